@@ -387,6 +387,16 @@ pub fn generate(seed: u64, focus: &str, _tier: Tier) -> AgentScenario {
             reattach_of: None,
         });
     }
+    // The agent fails in the middle of the run (C04 focus): a handler raises an error that is fatal for the agent task.
+    {
+        let mut cr = root.sub("crash");
+        if focus == "C04" && cr.chance(1, 10) && !peers.is_empty() {
+            let q = cr.usize_below(peers.len());
+            let n = peers[q].ops.len();
+            let at = if n == 0 { 0 } else { n / 2 + cr.usize_below(n - n / 2 + 1) };
+            peers[q].ops.insert(at.min(n), Op::Cmd { lane: "ctl".into(), body: ctl_recon(&super::model::Ctl::Crash) });
+        }
+    }
     // A remote that failed (it stopped reading, so a write to it fails and the runtime removes it) comes back under
     // the same id and starts again: nothing of its earlier session may be left.
     {
@@ -477,7 +487,7 @@ pub fn generate(seed: u64, focus: &str, _tier: Tier) -> AgentScenario {
         Some(super::fake::FailPlan {
             lane: g.rng.pick(&["val", "tval", "map"]).to_string(),
             after_requests: g.rng.range(0, 25) as u32,
-            mode: if g.rng.chance(1, 2) { super::fake::FailMode::Garbage } else { super::fake::FailMode::DropIo },
+            mode: if g.rng.chance(1, 2) { if root.sub("torn-lane-frame").chance(1, 2) { super::fake::FailMode::TornFrame } else { super::fake::FailMode::Garbage } } else { super::fake::FailMode::DropIo },
         })
     } else {
         None
@@ -598,7 +608,12 @@ fn gen_op(g: &mut Gen, mix: &Mix, key_pool: i32, ops: &mut Vec<Op>, linked: &mut
         } else {
             let n = *g.rng.pick(&[1i32, 2, 3, 10]);
             let start = g.vals(n);
-            let ctl = Ctl::SetVal { item: val_lane_item(lane).unwrap(), start, n };
+            // A quarter of the handler-made sets go through a wrapped handler (Option / map / and_then / followed_by).
+            let ctl = if start % 4 == 1 {
+                Ctl::SetWrapped { item: val_lane_item(lane).unwrap(), start, n, shape: (start / 4) % 4 }
+            } else {
+                Ctl::SetVal { item: val_lane_item(lane).unwrap(), start, n }
+            };
             ops.push(Op::Cmd { lane: "ctl".into(), body: ctl_recon(&ctl) });
         }
     } else if take(mix.map) {
@@ -674,7 +689,18 @@ fn gen_op(g: &mut Gen, mix: &Mix, key_pool: i32, ops: &mut Vec<Op>, linked: &mut
         let target = g.rng.range_i(0, 2) as i32;
         let overwrite = g.rng.chance(1, 2);
         if g.rng.chance(1, 3) {
-            ops.push(Op::Cmd { lane: "ctl".into(), body: ctl_recon(&Ctl::CmdrSend { target: target % 2, queued: !overwrite, start, n }) });
+            // Some sends go through a commander that a handler creates long after on_start.
+            let late = start % 3 == 0;
+            if late {
+                ops.push(Op::Cmd { lane: "ctl".into(), body: ctl_recon(&Ctl::NewCmdr { target: target % 2 }) });
+            }
+            let t = if late { 2 + target % 2 } else { target % 2 };
+            ops.push(Op::Cmd { lane: "ctl".into(), body: ctl_recon(&Ctl::CmdrSend { target: t, queued: !overwrite, start, n }) });
+            if late && n > 1 {
+                // ... and the commanders of on_start must still reach their own lanes afterwards.
+                let start2 = g.vals(1);
+                ops.push(Op::Cmd { lane: "ctl".into(), body: ctl_recon(&Ctl::CmdrSend { target: target % 2, queued: true, start: start2, n: 1 }) });
+            }
         } else {
             ops.push(Op::Cmd { lane: "ctl".into(), body: ctl_recon(&Ctl::Send { target, overwrite, start, n }) });
         }
